@@ -38,6 +38,42 @@ pub struct QState<'a> {
     pub wid: usize,
     pub failed: bool,
     pub inter: &'a mut BTreeSet<u64>,
+    /// a nested macro requested by the visit that just returned (kind, n, mask)
+    pub want_nested: Option<(u8, u32, u32)>,
+    pub nested: Option<NestedRun>,
+    pub nested_visits: Vec<VisitRec>,
+}
+
+/// One query macro running on the unmatched archetype from inside the closure of the query in flight.
+pub struct NestedRun {
+    pub kind: u8,
+    pub oi: usize,
+    pub n: u32,
+    pub mask: u32,
+    pub start_live: BTreeSet<Bits>,
+    pub seen: BTreeSet<Bits>,
+    pub pending: Option<Bits>,
+    pub k: usize,
+    pub broke_at: Option<usize>,
+    pub key: Option<Bits>,
+}
+
+/// The hook handed to the site bodies: visits plus the nested-macro protocol.
+pub struct QHook<'q, 'a, W>(pub &'q mut QState<'a>, pub std::marker::PhantomData<W>);
+
+impl<'q, 'a, W: WorldSpec> VisitHook<W> for QHook<'q, 'a, W> {
+    fn visit(&mut self, v: Visit<'_, '_, W>) -> Step {
+        self.0.on_visit::<W>(v)
+    }
+    fn nested_req(&mut self) -> Option<NestedReq> {
+        self.0.nested_req::<W>()
+    }
+    fn nested_visit(&mut self, ent: Bits, dir: Option<EntityDirectAny>, matched: u8) -> Step {
+        self.0.nested_visit::<W>(ent, dir, matched)
+    }
+    fn nested_done(&mut self, found: Option<bool>) {
+        self.0.nested_done::<W>(found)
+    }
 }
 
 fn kinds_of<W: WorldSpec>(ai: usize) -> &'static [u8] {
@@ -49,6 +85,151 @@ impl<'a> QState<'a> {
         if let Some(b) = self.pending_destroy.take() {
             self.m.remove(b, self.wrapping);
             self.stats.inc("iter_destroy_destroyed");
+        }
+    }
+
+    fn nested_req<W: WorldSpec>(&mut self) -> Option<NestedReq> {
+        let (kind, n, mask) = self.want_nested.take()?;
+        let oi = self.site.other?;
+        if self.failed || rt::has_violation() {
+            return None;
+        }
+        let kind = kind % 3;
+        let live = self.m.live_of(oi);
+        let start_live: BTreeSet<Bits> = live.iter().copied().collect();
+        let key = if kind == 2 {
+            if live.is_empty() {
+                return None;
+            }
+            Some(live[n as usize % live.len()])
+        } else {
+            None
+        };
+        self.nested = Some(NestedRun { kind, oi, n, mask, start_live, seen: BTreeSet::new(), pending: None, k: 0, broke_at: None, key });
+        self.stats.inc(match kind {
+            0 => "inner_nested_ecs_iter",
+            1 => "inner_nested_ecs_iter_destroy",
+            _ => "inner_nested_ecs_find",
+        });
+        Some(NestedReq { kind, key: key.and_then(any_from_bits) })
+    }
+
+    fn nested_visit<W: WorldSpec>(&mut self, ent: Bits, dir: Option<EntityDirectAny>, matched: u8) -> Step {
+        let wrapping = self.wrapping;
+        let site = self.site.name;
+        let run = match self.nested.as_mut() {
+            Some(r) => r,
+            None => return Step::Break,
+        };
+        if let Some(b) = run.pending.take() {
+            self.m.remove(b, wrapping);
+            self.stats.inc("inner_nested_destroyed");
+        }
+        let prop: &'static str = if run.kind == 1 { "C07" } else { "C06" };
+        let k = run.k;
+        run.k += 1;
+        if run.broke_at.is_some() {
+            vio(prop, "ran-after-break", format!("{}: nested macro (kind {}) on {} ran its closure again after Break", site, run.kind, W::archs()[run.oi].info().name));
+            self.failed = true;
+            return Step::Break;
+        }
+        if matched != W::archs()[run.oi].info().id || matched != ((ent >> 32) & 0xFF) as u8 {
+            vio(prop, "matched-archetype-alias", format!("{}: nested macro: MatchedArchetype::ARCHETYPE_ID is {} while visiting {:#x}", site, matched, ent));
+            self.failed = true;
+            return Step::Break;
+        }
+        match self.m.ents.get(&ent) {
+            Some(r) if r.arch == run.oi => {}
+            other => {
+                vio(prop, "visited-non-live", format!("{}: nested macro pinned to {} ran for {:#x} ({})", site, W::archs()[run.oi].info().name, ent, if other.is_some() { "another archetype" } else { "not a live entity" }));
+                self.failed = true;
+                return Step::Break;
+            }
+        }
+        if !run.seen.insert(ent) {
+            vio(prop, "visited-twice", format!("{}: nested macro ran twice for {:#x}", site, ent));
+            self.failed = true;
+            return Step::Break;
+        }
+        if let Some(d) = dir {
+            if d.archetype_id() != W::archs()[run.oi].info().id {
+                vio("C09", "direct-param-wrong-archetype", format!("{}: nested macro: direct handle parameter carries archetype id {}", site, d.archetype_id()));
+            }
+        }
+        let am = &self.m.archs[run.oi];
+        self.nested_visits.push(VisitRec { ent, arch: run.oi, dir, removals: am.removals, creations: am.creations, ver: am.ver });
+        let n0 = run.start_live.len();
+        let step = match run.kind {
+            0 => {
+                if k == run.n as usize % (n0 + 2) {
+                    Step::Break
+                } else {
+                    Step::Continue
+                }
+            }
+            1 => {
+                let at_max = near_max(ent as u32 as u64) || near_max(am.ver);
+                let destroy = (run.mask >> (k % 32)) & 1 == 1 && (!at_max || wrapping);
+                let brk = k == (run.n as usize / 7) % (n0 + 3);
+                match (destroy, brk) {
+                    (false, false) => Step::Continue,
+                    (false, true) => Step::Break,
+                    (true, false) => Step::ContinueDestroy,
+                    (true, true) => Step::BreakDestroy,
+                }
+            }
+            _ => Step::Continue,
+        };
+        if matches!(step, Step::ContinueDestroy | Step::BreakDestroy) {
+            run.pending = Some(ent);
+        }
+        if matches!(step, Step::Break | Step::BreakDestroy) {
+            run.broke_at = Some(k);
+        }
+        step
+    }
+
+    fn nested_done<W: WorldSpec>(&mut self, found: Option<bool>) {
+        let wrapping = self.wrapping;
+        let mut run = match self.nested.take() {
+            Some(r) => r,
+            None => return,
+        };
+        if let Some(b) = run.pending.take() {
+            self.m.remove(b, wrapping);
+            self.stats.inc("inner_nested_destroyed");
+        }
+        if self.failed || rt::has_violation() {
+            return;
+        }
+        let prop: &'static str = if run.kind == 1 { "C07" } else { "C06" };
+        let name = W::archs()[run.oi].info().name;
+        match run.kind {
+            0 | 1 => match run.broke_at {
+                None => {
+                    if run.seen != run.start_live {
+                        let missing: Vec<_> = run.start_live.difference(&run.seen).collect();
+                        let extra: Vec<_> = run.seen.difference(&run.start_live).collect();
+                        vio(prop, "not-every-entity-visited", format!("{}: nested macro (kind {}) on {}: missing {:x?} extra {:x?}", self.site.name, run.kind, name, missing, extra));
+                        self.failed = true;
+                    }
+                    self.stats.inc("inner_nested_full_pass");
+                }
+                Some(b) => {
+                    if run.seen.len() != b + 1 {
+                        vio(prop, "ran-after-break", format!("{}: nested macro on {} broke at visit {} but ran {} times", self.site.name, name, b, run.seen.len()));
+                        self.failed = true;
+                    }
+                    self.stats.inc("inner_nested_break");
+                }
+            },
+            _ => {
+                let want: BTreeSet<Bits> = run.key.iter().copied().collect();
+                if found != Some(true) || run.seen != want {
+                    vio("C01", "live-handle-rejected", format!("{}: nested ecs_find! on {} with live {:x?} returned found={:?} visiting {:x?}", self.site.name, name, run.key, found, run.seen));
+                    self.failed = true;
+                }
+            }
         }
     }
 
@@ -69,6 +250,7 @@ impl<'a> QState<'a> {
                 Inner::OtherDestroy { .. } => 2,
                 Inner::Acc { acc } => 3 + ((acc.kind as u64) << 4) + ((acc.m as u64) << 8),
                 Inner::Peek { .. } => 4,
+                Inner::OtherQuery { kind, .. } => 5 + ((*kind as u64 % 3) << 4),
             };
             let key = [self.mac as u64, self.site.matches.len() as u64, k.min(12) as u64, act.step as u64, act.w.is_some() as u64, inner_tag, act.panic as u64]
                 .iter()
@@ -209,6 +391,12 @@ impl<'a> QState<'a> {
                     self.stats.inc("inner_nested_access");
                 }
             }
+            Inner::OtherQuery { kind, n, mask } => {
+                // runs after this visit returns to the site body (the `other` borrow must end first)
+                if v.other.is_some() && self.site.other.is_some() {
+                    self.want_nested = Some((*kind, *n, *mask));
+                }
+            }
             Inner::Peek { h } => {
                 if let Some(w) = v.world {
                     // a lookup through &self while the query is in flight must agree with the model
@@ -228,6 +416,7 @@ impl<'a> QState<'a> {
             }
         }
         if act.panic {
+            self.want_nested = None;
             rt::with(|r| r.fired = Some(Injected::Closure));
             std::panic::panic_any(Injected::Closure);
         }
@@ -528,9 +717,9 @@ impl<W: WorldSpec> Engine<W> {
         let wrapping = self.cfg.wrapping;
         // F3 inside ecs_iter_destroy!: the loop drops the tuple returned by destroy itself. Only
         // armed when no drop can happen in harness code running inside the closure.
-        let gecs_drops_only = mac == QMacro::IterDestroy && !plan.iter().any(|a| matches!(a.inner, Inner::OtherDestroy { .. }));
+        let gecs_drops_only = mac == QMacro::IterDestroy && !plan.iter().any(|a| matches!(a.inner, Inner::OtherDestroy { .. } | Inner::OtherQuery { .. }));
         rt::arm(None, if gecs_drops_only { dp } else { None }, None, false);
-        let (res, visits, created_other, pending, broke_at, calls_after_break, k, failed) = {
+        let (res, visits, created_other, pending, broke_at, calls_after_break, k, failed, nested_visits) = {
             let Engine { ws, ms, stats, interleavings, .. } = self;
             let w = ws[wid].as_mut().unwrap();
             let mut qs = QState {
@@ -550,9 +739,12 @@ impl<W: WorldSpec> Engine<W> {
                 wid,
                 failed: false,
                 inter: interleavings,
+                want_nested: None,
+                nested: None,
+                nested_visits: Vec::new(),
             };
             let res = {
-                let mut hook = |v: Visit<'_, '_, W>| qs.on_visit::<W>(v);
+                let mut hook = QHook::<W>(&mut qs, std::marker::PhantomData);
                 catch(|| match mac {
                     QMacro::Iter | QMacro::Find => w.query_mut(si, mac, qkey, &mut hook),
                     QMacro::IterDestroy | QMacro::IterDestroyUnit | QMacro::IterDestroyStep => w.query_mut(si, call_form, qkey, &mut hook),
@@ -562,7 +754,8 @@ impl<W: WorldSpec> Engine<W> {
             if res.is_ok() {
                 qs.finalize_pending();
             }
-            (res, qs.visits, qs.created_other, qs.pending_destroy, qs.broke_at, qs.calls_after_break, qs.k, qs.failed)
+            // a nested macro cut short by unwinding: the destroy of its last visit never happened
+            (res, qs.visits, qs.created_other, qs.pending_destroy, qs.broke_at, qs.calls_after_break, qs.k, qs.failed, qs.nested_visits)
         };
         let drop_calls = rt::with(|r| r.drop_calls);
         rt::disarm();
@@ -579,6 +772,12 @@ impl<W: WorldSpec> Engine<W> {
             if let Some(d) = v.dir {
                 self.add_dir(d, v.ent, wid, v.removals, v.creations, v.ver);
                 self.stats.inc("direct_from_closure");
+            }
+        }
+        for v in &nested_visits {
+            if let Some(d) = v.dir {
+                self.add_dir(d, v.ent, wid, v.removals, v.creations, v.ver);
+                self.stats.inc("direct_from_nested_closure");
             }
         }
         let prop: &'static str = if mac == QMacro::IterDestroy { "C07" } else { "C06" };
